@@ -86,6 +86,10 @@ def parse_type(s):
 def _type_of_node(n):
     if isinstance(n, ast.Name):
         nm = n.id
+        if nm == "IntMap":
+            return Ty("IntMap")
+        if nm == "IntMap2":
+            return Ty("IntMap2")
         simple = {"int": INT, "bool": BOOL, "str": STR, "datetime": DT, "timedelta": TD, "float": FLOAT,
                   "None": NONE, "JV": JV, "Seconds": FLOAT, "fn": FN}
         if nm in simple:
@@ -174,6 +178,10 @@ def sort_of(ty):
         return tuple_sort([sort_of(a) for a in ty.args])
     if n == "None":
         return I
+    if n == "IntMap":
+        return z3.ArraySort(I, I)
+    if n == "IntMap2":
+        return z3.ArraySort(I, I, I)
     raise Unsupported(f"no sort for {ty}")
 
 
@@ -289,7 +297,8 @@ class State:
         self.guards = []        # expression-level guards (short-circuit evaluation)
         self.env = {}
         self.heap = {}          # field key -> z3 array
-        self.alloc = None       # z3 Int: every ref < alloc is allocated
+        self.alloc_base = None  # allocation epoch base (z3 Int const); every ref < alloc is allocated
+        self.alloc_off = 0
         self.status = "run"     # run | return | raise | break | continue
         self.ret = None
         self.exc = None         # exception class name
@@ -309,7 +318,8 @@ class State:
         s.guards = list(self.guards)
         s.env = dict(self.env)
         s.heap = dict(self.heap)
-        s.alloc = self.alloc
+        s.alloc_base = self.alloc_base
+        s.alloc_off = self.alloc_off
         s.status = self.status
         s.ret = self.ret
         s.exc = self.exc
@@ -322,6 +332,39 @@ class State:
         s.yields = self.yields
         s.frame = self.frame
         return s
+
+    # -- allocation ----------------------------------------------------------------------------
+    @property
+    def alloc(self):
+        if self.alloc_base is None:
+            return None
+        return self.alloc_base + self.alloc_off if self.alloc_off else self.alloc_base
+
+    @alloc.setter
+    def alloc(self, term):
+        """Start a new allocation epoch whose base equals `term`."""
+        if term is None:
+            self.alloc_base = None
+            return
+        if z3.is_int_value(term):
+            self.alloc_base, self.alloc_off = term, 0
+            return
+        cur = self.alloc
+        if cur is not None and term.eq(cur):
+            return
+        b = fresh("alloc", I)
+        self.ex.epochs[b.get_id()] = (self.alloc_base.get_id() if self.alloc_base is not None else None, self.alloc_off)
+        self.alloc_base, self.alloc_off = b, 0
+        self.assume_unguarded(b == term)
+
+    def new_epoch_at_least(self, lower):
+        b = fresh("alloc", I)
+        self.ex.epochs[b.get_id()] = (self.alloc_base.get_id() if self.alloc_base is not None else None, self.alloc_off)
+        self.alloc_base, self.alloc_off = b, 0
+        self.assume_unguarded(b >= lower)
+
+    def assume_unguarded(self, c):
+        self.pc.append(c)
 
     # -- path condition ------------------------------------------------------------------------
     def guard(self):
@@ -358,25 +401,79 @@ class State:
             self.heap[key] = init[key]
         return self.heap[key]
 
-    def read(self, key, sort, ref):
-        return z3.Select(self.field(key, sort), ref)
-
     def write(self, key, sort, ref, val):
         arr = self.field(key, sort)
         new = z3.Store(arr, ref, val)
         g = self.guard()
         self.heap[key] = z3.If(g, new, arr) if g is not None else new
+        wr = self.ex.write_refs
+        if wr is not None:
+            wr.append((key, ref))
 
     def set_field_array(self, key, arr):
         g = self.guard()
         old = self.heap.get(key)
         self.heap[key] = z3.If(g, arr, old) if (g is not None and old is not None) else arr
+        wr = self.ex.write_refs
+        if wr is not None:
+            wr.append((key, None))
 
     def new_ref(self):
         r = self.alloc
         # allocation under a guard still bumps alloc (harmless: refs only need to be distinct)
-        self.alloc = self.alloc + 1
+        self.alloc_off += 1
         return r
+
+    # -- syntactic disequality of references (keeps store chains out of the formulas) ------------
+    def _decomp(self, t):
+        if z3.is_add(t) and t.num_args() == 2:
+            a, b = t.arg(0), t.arg(1)
+            if z3.is_int_value(b):
+                return a, b.as_long()
+            if z3.is_int_value(a):
+                return b, a.as_long()
+        return t, 0
+
+    def distinct_refs(self, r1, r2):
+        if r1.eq(r2):
+            return False
+        b1, c1 = self._decomp(r1)
+        b2, c2 = self._decomp(r2)
+        if b1.eq(b2):
+            return c1 != c2
+        ep = self.ex.epochs
+        i1, i2 = b1.get_id(), b2.get_id()
+        old = self.ex.old_refs
+        f1, f2 = i1 in ep, i2 in ep
+        if f1 and i2 in old and c2 == 0 and c1 >= 0:
+            return True
+        if f2 and i1 in old and c1 == 0 and c2 >= 0:
+            return True
+        if f1 and f2 and c1 >= 0 and c2 >= 0:
+            # is epoch i1 an ancestor of i2 (or vice versa) with the ref inside the used part?
+            for (lo, clo, hi) in ((i1, c1, i2), (i2, c2, i1)):
+                cur = hi
+                while cur is not None and cur in ep:
+                    prev, used = ep[cur]
+                    if prev == lo:
+                        if clo < used:
+                            return True
+                        break
+                    cur = prev
+        return False
+
+    def read(self, key, sort, ref):
+        arr = self.field(key, sort)
+        # walk the store chain while the written cell is provably a different reference
+        while z3.is_store(arr):
+            i = arr.arg(1)
+            if i.eq(ref):
+                return arr.arg(2)
+            if self.distinct_refs(i, ref):
+                arr = arr.arg(0)
+            else:
+                break
+        return z3.Select(arr, ref)
 
 
 # ----------------------------------------------------------------------------------------------
